@@ -108,18 +108,19 @@ type Master struct {
 	units []Unit
 	mu    sync.Mutex
 
-	States      int
-	Transitions int
-	Items       int
-	Classes     map[string]int
-	Stats       map[string]int
-	Found       []Found
-	Deaths      int
-	Exhaustive  bool
-	Aborted     bool
-	UnitReports []map[string]interface{}
-	EventfulTr  int
-	distinctNT  map[string]bool
+	States                       int
+	Transitions                  int
+	Items                        int
+	Classes                      map[string]int
+	Stats                        map[string]int
+	Found                        []Found
+	Deaths                       int
+	Exhaustive                   bool
+	Aborted                      bool
+	DedupCompared, DedupMismatch int
+	UnitReports                  []map[string]interface{}
+	EventfulTr                   int
+	distinctNT                   map[string]bool
 }
 
 type job struct {
@@ -320,6 +321,17 @@ func (m *Master) tooManyDeaths(deaths int) bool {
 func (m *Master) bfs(ui int, sc *Scenario) {
 	seen := map[string]bool{}
 	frontier := [][]int{nil}
+	frontierKeys := []string{""}
+	// dedup self-check: for a deterministic 1/16 subset of state keys the
+	// signature (op, class, successor key) of the representative's expansion
+	// is remembered; sampled histories that were pruned as duplicates of such a
+	// state are expanded as well and must show the same signature.
+	sigOf := map[string]string{}
+	type dupSample struct {
+		path []int
+		key  string
+	}
+	var dups []dupSample
 	rep := map[string]interface{}{"unit": sc.Name, "kind": "bfs", "alphabet": len(sc.Alphabet), "depth_bound": sc.Depth, "config": sc.Cfg.String()}
 	states, trans, completed := 1, 0, 0
 	exhaustive := true
@@ -348,9 +360,13 @@ func (m *Master) bfs(ui int, sc *Scenario) {
 			}
 		}
 		var next [][]int
+		var nextKeys []string
 		for i, o := range outs {
 			m.addStats(o.stats)
 			m.Found = append(m.Found, o.found...)
+			if k := frontierKeys[i]; k != "" && subsetHash(k)%16 == 0 {
+				sigOf[k] = transSignature(o.trans)
+			}
 			for _, tr := range o.trans {
 				trans++
 				m.Classes[tr.Class]++
@@ -366,12 +382,16 @@ func (m *Master) bfs(ui int, sc *Scenario) {
 				}
 				if tr.Key != "" {
 					if seen[tr.Key] {
+						if len(dups) < 400 && subsetHash(tr.Key)%16 == 0 && subsetHash(fmt.Sprint(path))%4 == 0 {
+							dups = append(dups, dupSample{path, tr.Key})
+						}
 						continue
 					}
 					seen[tr.Key] = true
 				}
 				states++
 				next = append(next, path)
+				nextKeys = append(nextKeys, tr.Key)
 			}
 		}
 		if cut {
@@ -380,12 +400,31 @@ func (m *Master) bfs(ui int, sc *Scenario) {
 		}
 		completed = depth + 1
 		frontier = next
+		frontierKeys = nextKeys
 		if m.Verbose {
 			fmt.Fprintf(os.Stderr, "  [%s] depth %d: states=%d transitions=%d frontier=%d found=%d\n", sc.Name, completed, states, trans, len(frontier), len(m.Found))
 		}
 	}
 	if m.Aborted {
 		exhaustive = false
+	}
+	// dedup self-check
+	if len(dups) > 0 && !m.Aborted {
+		var jobs []job
+		var keys []string
+		for _, d := range dups {
+			if _, ok := sigOf[d.key]; ok {
+				jobs = append(jobs, job{unit: ui, hist: d.path})
+				keys = append(keys, d.key)
+			}
+		}
+		for i, o := range m.parallel(jobs) {
+			m.DedupCompared++
+			if got := transSignature(o.trans); got != sigOf[keys[i]] {
+				m.DedupMismatch++
+				fmt.Fprintf(os.Stderr, "DEDUP SELF-CHECK FAILED in %s: history %v was pruned as a duplicate of state %s but expands differently\n", sc.Name, jobs[i].hist, keys[i])
+			}
+		}
 	}
 	rep["states"] = states
 	rep["transitions"] = trans
@@ -398,6 +437,16 @@ func (m *Master) bfs(ui int, sc *Scenario) {
 		m.Exhaustive = false
 	}
 	m.UnitReports = append(m.UnitReports, rep)
+}
+
+// transSignature canonically renders the expansion of one state.
+func transSignature(ts []TransResult) string {
+	var parts []string
+	for _, t := range ts {
+		parts = append(parts, fmt.Sprintf("%d:%s:%s", t.Op, t.Class, t.Key))
+	}
+	sort.Strings(parts)
+	return strings.Join(parts, ",")
 }
 
 func (m *Master) enumerate(ui int, en *Enum) {
@@ -693,6 +742,9 @@ func (m *Master) Run(verifDir string, seed int) int {
 	if violations > 0 {
 		return 1
 	}
+	if m.DedupMismatch > 0 {
+		return 2 // infrastructure error: pruning is not sound for this tree, nothing is claimed
+	}
 	return 0
 }
 
@@ -772,6 +824,7 @@ func (m *Master) writeEvidence(verifDir string, seed int, wall float64, violatio
 		"known_findings_matched":        knownMatched,
 		"workers":                       m.Workers,
 		"stopped_early":                 m.Aborted,
+		"dedup_selfcheck":               map[string]int{"pruned_duplicates_re_expanded": m.DedupCompared, "mismatches": m.DedupMismatch},
 	}
 	ev := map[string]interface{}{
 		"property_id": m.Check.ID,
